@@ -33,6 +33,14 @@ theorem moving_average_eq_spec_full (vs : List Rat) (span : Option Nat) (w : Wei
 
 example : movingAverageS [1, 2, 3, 5] (some 2) .none = .ok [1, 3/2, 5/2, 4] := by decide +kernel
 
+/-- Why the harness may compare floats exactly: if every input is `m/2^k` with `|m| ≤ B` then every window sum —
+i.e. (by the telescoping lemmas behind `moving_average_eq_spec`) every running sum the accumulate/tee implementation
+forms — is `m'/2^k` with `|m'| ≤ len·B`.  For `2^k·len·B < 2^53` such numbers and their sums and differences are
+exactly representable in binary64, so the only rounding in `moving_average` (and in `mean`) is the final division. -/
+theorem window_sum_dyadic (k B : Nat) (vs : List Rat) (h : ∀ x ∈ vs, DyadicBdd k B x) (span : Option Nat) (i : Nat) :
+    DyadicBdd k (vs.length * B) (sumL (window span i vs)) :=
+  window_sum_dyadic' k B vs h span i
+
 /-! ### `_remove` -/
 
 /-- On an interaction table sorted by its id columns, for distinct ids that all occur, the three nested
@@ -136,6 +144,64 @@ theorem values_unchanged_sublist (r r' : Result) (n : Option NSpec) (lp : Option
     r'.ints.Sublist r.ints ∧ r'.envs.Sublist r.envs ∧ r'.lrns.Sublist r.lrns ∧ r'.evals.Sublist r.evals :=
   filter_fin_sublist' r r' n lp hs hu hw hrefs hall h
 
+/-! ### C18-F3: the order of the two steps -/
+
+/-- The witness of C18-F3: environment 0 was evaluated for learner 0 (2 interactions) and learner 1 (1 interaction),
+environment 1 for both learners with 2 interactions. -/
+def cexDrop : Result :=
+  { envs := [⟨0, []⟩, ⟨1, []⟩], lrns := [⟨0, []⟩, ⟨1, []⟩], evals := [⟨0, []⟩],
+    ints := [⟨0, 0, 0, 1, 1⟩, ⟨0, 0, 0, 2, 1⟩, ⟨0, 1, 0, 1, 1⟩, ⟨1, 0, 0, 1, 1⟩, ⟨1, 0, 0, 2, 1⟩, ⟨1, 1, 0, 1, 1⟩, ⟨1, 1, 0, 2, 1⟩] }
+
+example : WF cexDrop ∧ AllReferenced cexDrop := by decide
+
+/-- `where_fin(2,'learner_id','environment_id')` as the code is (pairing, *then* dropping the evaluations shorter
+than 2) returns environment 0 with learner 0 only: the result is not "a Result where an `l` exists for every `p`"
+(docstring of `where_fin`); with the length step first (`filterFinD`) only environment 1 stays and the pairing
+is complete. -/
+theorem where_fin_length_drop_counterexample :
+    (∃ r', filterFin true cexDrop (some (.k 2)) (some ([.lid], [.eid])) = .ok r' ∧
+        pairingComplete r' [.lid] [.eid] = .ok false) ∧
+      (∃ r', filterFinD cexDrop (some (.k 2)) (some ([.lid], [.eid])) = .ok r' ∧
+        pairingComplete r' [.lid] [.eid] = .ok true) := by
+  refine ⟨⟨{ envs := [⟨0, []⟩, ⟨1, []⟩], lrns := [⟨0, []⟩, ⟨1, []⟩], evals := [⟨0, []⟩],
+             ints := [⟨0, 0, 0, 1, 1⟩, ⟨0, 0, 0, 2, 1⟩, ⟨1, 0, 0, 1, 1⟩, ⟨1, 0, 0, 2, 1⟩, ⟨1, 1, 0, 1, 1⟩, ⟨1, 1, 0, 2, 1⟩] }, ?_, ?_⟩,
+    ⟨{ envs := [⟨1, []⟩], lrns := [⟨0, []⟩, ⟨1, []⟩], evals := [⟨0, []⟩],
+       ints := [⟨1, 0, 0, 1, 1⟩, ⟨1, 0, 0, 2, 1⟩, ⟨1, 1, 0, 1, 1⟩, ⟨1, 1, 0, 2, 1⟩] }, ?_, ?_⟩⟩ <;> decide +kernel
+
+/-- With `fixes/C18-length-drop-before-pairing.diff` (`filterFinD`) `where_fin` meets the joint contract
+`whereFinJ`: evaluations shorter than `n` go first, then exactly the complete pairing groups of the rest stay. -/
+theorem filter_fin_d_eq_spec (r : Result) (n : Option NSpec) (lp : Option (List Col × List Col))
+    (hwf : WF r) (hall : AllReferenced r) : filterFinD r n lp = whereFinJ r n lp :=
+  filterFinD_eq_spec r n lp hwf hall
+
+/-! ### `where_best` / `filter_best` -/
+
+/-- The inner loop of `filter_best` (`max_val, k, d = -inf, [], []; … if mean_val < max_val …`) keeps exactly the
+evaluations of the level `bestLevelS` names: a level whose mean no other level of the cell exceeds — among several
+the last in ascending order of the level. -/
+theorem pick_best_eq_spec (cands : List (Key × Rat × List Triple)) :
+    (pickBest cands none [] []).1 = ((bestLevelS cands).map (·.2.2)).getD [] :=
+  pickBest_eq_spec cands
+
+/-- the kept level exists for a non-empty cell and has the best mean of its cell -/
+theorem best_level_is_max (cands : List (Key × Rat × List Triple)) (h : cands ≠ []) :
+    ∃ c, bestLevelS cands = some c ∧ c ∈ cands ∧ ∀ c' ∈ cands, c'.2.1 ≤ c.2.1 := by
+  obtain ⟨c, hc⟩ := bestLevelS_some cands h
+  exact ⟨c, hc, bestLevelS_is_max cands c hc⟩
+
+/-- `where_best(l,p,y,n,full_l,full_p)` = its specification: among the complete `full_p` groups, in every `(p,l)` cell
+exactly the evaluations of the best `full_l` level stay, untouched, and exactly the parameter rows they refer to. -/
+theorem where_best_spec (r : Result) (lc pc : List Col) (n : Option Nat) (fl fp : List Col) (hwf : WF r) :
+    filterBest r lc pc n fl fp = whereBestS r lc pc n fl fp :=
+  filterBest_eq_spec r lc pc n fl fp hwf
+
+/-- its result is again well-formed with mutually consistent tables -/
+theorem where_best_preserves_wf (r r' : Result) (lc pc : List Col) (n : Option Nat) (fl fp : List Col) (hwf : WF r)
+    (h : filterBest r lc pc n fl fp = .ok r') : WF r' ∧ Consistent r' := by
+  rw [where_best_spec r lc pc n fl fp hwf] at h
+  obtain ⟨h1, h2⟩ := whereBestS_wf r r' lc pc n fl fp hwf h
+  exact ⟨h1, h1.2.2.2, h2⟩
+
 /-! ### chains (the "histories" of the quantifier) -/
 
 /-- what `where_fin` returns is again well-formed, with every parameter row referenced — so the hypotheses of
@@ -150,8 +216,9 @@ theorem where_preserves_wf (r : Result) (tb : Tbl) (j : Option Nat) (vals : List
     (hall : AllReferenced r) : WF (whereTbl r tb j vals) ∧ AllReferenced (whereTbl r tb j vals) :=
   whereTbl_wf r tb j vals hwf hall
 
-/-- every chain `r.where_fin(…).where(…).where_fin(…)…` of the (repaired) code equals the same chain of
-specifications, for all chains and all well-formed, fully referenced starting Results -/
+/-- every chain `r.where_fin(…).where(…).where_best(…).where_fin(…)…` of the (repaired) code equals the same chain
+of specifications, for all chains of `where_fin` / `where` / `where_best` steps and all well-formed, fully
+referenced starting Results -/
 theorem chain_eq_spec (ss : List Step) (r : Result) (hwf : WF r) (hall : AllReferenced r) :
     runChain true ss r = runChainS ss r :=
   runChain_eq_spec ss r hwf hall
@@ -172,5 +239,20 @@ theorem raw_learners_eq_spec (r : Result) (x : XSpec) (lc : List Col) (pc : Opti
     (hs : SortedIds r.ints) (hu : UniqueIds r) (hw : IdxWF r.ints) (hrefs : RefsPresent r) :
     rawLearners true r x lc pc span = rawLearnersS r x lc pc span :=
   rawLearners_eq_spec r x lc pc span hs hu hw hrefs
+
+/-! ### `raw_contrast` -/
+
+/-- `raw_contrast(l1,l2,x,y,l,p,span)`: the two label selections, `_grouped_ys(p,x,card='S')` on each, the pairing
+by `p` (`zip` for `x='index'`, `product` otherwise) and the grouping by x — fed with the values the code computes
+(`moving_average`, `mean(Y[-span:])`, `Y[-1]`) — equals the same pairing of the directly computed averages; the three
+`CobaException`s included. -/
+theorem raw_contrast_eq_spec (r : Result) (sel1 sel2 : List (Tbl × Option Nat × Int)) (pc : List Col) (x : XSpec)
+    (span : Option Nat) : rawContrast r sel1 sel2 pc x span = rawContrastS r sel1 sel2 pc x span :=
+  rawContrast_eq_spec r sel1 sel2 pc x span
+
+/-- the `card='S'` dict never overwrites when no two entries share `(p, x)` — i.e. when every pairing value has one
+evaluation on each side (what `where_fin(l,p)` establishes): then each side's values are simply its entries -/
+theorem contrast_side_no_overwrite (es : List ((Key × Key) × Rat)) (h : (es.map (·.1)).Nodup) : lastWins [] es = es :=
+  lastWins_nodup es [] (by simpa using h)
 
 end Coba.C18
